@@ -770,7 +770,8 @@ package openflow13
 //@   ensures wf(m)
 
 // (the prepend path builds the list with append([]Action{act}, old...), an append of a symbolic-length element
-// sequence, which the executor does not model: only the append path is under contract)
+// sequence, which the executor does not model: only the append path is under contract for all lists; the prepend
+// path is covered at instance level by lemmaContInstrActions, whose length facts are checked under C02 too)
 //@ func (*InstrActions).AddAction(instr, act, prepend) (err) [C02]
 //@   requires wf(instr) && wf(act) && !prepend
 //@   modifies instr.Actions, instr.Length
@@ -862,6 +863,7 @@ package openflow13
 //@   ensures err == nil ==> len(b1) == 40 && len(b2) == len(b1) && bytes_eq(b2, 0, b1, 0, len(b1))
 //@   ensures[C03] err == nil ==> be16(b1, 0) == ite(write, 3, 4) && be16(b1, 2) == 40 && be32(b1, 4) == 0
 //@   ensures[C03] err == nil ==> be16(b1, 8) == 22 && be16(b1, 10) == 8 && be32(b1, 12) == a0.GroupId && be16(b1, 16) == 21 && be16(b1, 18) == 8 && be32(b1, 20) == a1.QueueId && be16(b1, 24) == 0 && be16(b1, 26) == 16 && be32(b1, 28) == a2.Port && be16(b1, 32) == a2.MaxLen && be16(b1, 34) == 0 && be32(b1, 36) == 0
+//@   ensures[C02] i.Length == 40 && len(b1) == 40 && be16(b1, 2) == 40 && be16(b1, 0) == ite(write, 3, 4)
 
 //@ func lemmaContMatch(port, mac, mask) (d, err, b1, b2) [C05]
 //@   inlinecalls
